@@ -418,10 +418,20 @@ var selfValidation []mutantResult
 
 // floor emits a vacuity obligation: measured count must be >= floor.
 func floor(rule, what string, got, min int) Ob {
+	// the number given by the rule is the count confirmed by hand when the rule was written; the effective floor
+	// is a third of it (at least 1): a behaviour-preserving refactoring (helper extraction merges instances)
+	// must not trip it, a rule that has lost sight of its instances must
+	eff := min / 3
+	if eff < 1 {
+		eff = 1
+	}
 	o := Ob{Rule: rule, Key: rule + ":floor:" + what, Site: "", Verdict: OK,
-		Note: fmt.Sprintf("%s: measured %d, floor %d", what, got, min)}
-	if got < min {
+		Note: fmt.Sprintf("%s: measured %d, floor %d (confirmed %d)", what, got, eff, min)}
+	if got < eff {
 		o.Verdict = VACUOUS
+	}
+	if os.Getenv("LH_FLOORS") != "" {
+		fmt.Fprintf(os.Stderr, "FLOOR\t%s\t%s\t%d\t%d\n", rule, what, got, eff)
 	}
 	return o
 }
